@@ -55,11 +55,13 @@ pub fn decode_chunked(body: &[u8], line_limit: usize) -> Decoded {
         // blanks around the number are tolerated, blanks inside it are not
         let num: &[u8] = {
             let mut n = num;
+            // blanks = the ASCII members of Unicode White_Space (HT, LF, VT, FF, CR, SP)
+            let blank = |b: &u8| (9..=13).contains(b) || *b == 32;
             while let [first, rest @ ..] = n {
-                if first.is_ascii_whitespace() { n = rest } else { break }
+                if blank(first) { n = rest } else { break }
             }
             while let [rest @ .., last] = n {
-                if last.is_ascii_whitespace() { n = rest } else { break }
+                if blank(last) { n = rest } else { break }
             }
             n
         };
